@@ -51,11 +51,12 @@ type ShipConnection struct {
 	//
 	// ProlongationRequestReply SHIP 13.4.4.1.3: Detection of response timeout on prolongation request.
 	handshakeTimerRunning  bool
-	closeReported          bool // the end of the connection has been reported
+	closeReported          bool // the end of the connection has been reported, guarded by reportMux
 	handshakeTimerDisabled bool // set once the connection is closed, no timer may be started anymore
 	handshakeTimerType     timeoutTimerType
 	handshakeTimerStopChan chan struct{}
 	handshakeTimerMux      sync.Mutex
+	reportMux              sync.Mutex // a state report and reporting the end of the connection exclude each other
 
 	lastReceivedWaitingValue time.Duration // required for Prolong-Request-Reply-Timer
 
